@@ -10,7 +10,7 @@
 use crate::lexer::verif_kani_support::span_of;
 use crate::options::verif_kani_support::options_for_kani;
 use crate::unit::verif_kani_support::{any_simple_unit, unit_of, IDX_NONE, N_SIMPLE};
-use crate::value::verif_kani_support::{convert_contract, convert_factor_spec};
+use crate::value::verif_kani_support::{convert_contract, convert_factor_spec, epsilon_const, inverse_epsilon_const};
 use crate::value::Number;
 
 pub(crate) fn format_stub(_args: std::fmt::Arguments<'_>) -> String {
@@ -285,6 +285,101 @@ fn c16_clamp_inverted_range() {
     }
     kani::cover!(true);
     std::mem::forget(r);
+}
+
+// ---------------------------------------------------------------------------
+// operate_internal (C16 mech 1): folding of compatible numbers, and sign
+// normalisation of a negative right operand in an unsimplified `+`/`-`
+// ---------------------------------------------------------------------------
+
+fn conversion_factor_contract(from: &Unit, to: &Unit) -> Option<f64> {
+    if from == to {
+        return Some(1.0);
+    }
+    crate::unit::verif_kani_support::table_model(to, from)
+}
+
+fn signed(op: BinaryOp, n: f64) -> f64 {
+    if op == BinaryOp::Plus {
+        n
+    } else {
+        -n
+    }
+}
+
+/// `l op r` with units that cannot be folded: the emitted operation must denote the same
+/// quantity (`lhs` unchanged, `op' n'` equal to `op n` as a signed term) with a non-negative `n'`
+fn check_unfolded(op: BinaryOp, l: f64, lu: Unit, r: f64, ru: Unit) {
+    let opts = options_for_kani();
+    let res = SassCalculation::operate_internal(op, arg(l, &lu), arg(r, &ru), false, true, &opts, span_of(0, 1));
+    match &res {
+        Ok(CalculationArg::Operation { lhs, op: op2, rhs }) => {
+            assert!(is_number_arg(lhs, l, &lu), "C16/K/operate_internal: left operand changed");
+            assert!(*op2 == BinaryOp::Plus || *op2 == BinaryOp::Minus, "C16/K/operate_internal: operator class changed");
+            match &**rhs {
+                CalculationArg::Number(n) => {
+                    assert!(n.unit == ru, "C16/K/operate_internal: right unit changed");
+                    assert!(signed(*op2, n.num.0) == signed(op, r), "C16/K/operate_internal: sign normalisation changed the value");
+                    assert!(!(n.num.0 < 0.0), "C16/K/operate_internal: right operand still negative");
+                }
+                _ => assert!(false, "C16/K/operate_internal: right operand is no longer a number"),
+            }
+        }
+        _ => assert!(false, "C16/K/operate_internal: incompatible units must stay an operation"),
+    }
+    std::mem::forget(res);
+}
+
+fn check_folded(op: BinaryOp, in_min_or_max: bool, l: f64, lu: Unit, r: f64, ru: Unit, want: f64, want_unit: Unit) {
+    let opts = options_for_kani();
+    let res = SassCalculation::operate_internal(op, arg(l, &lu), arg(r, &ru), in_min_or_max, true, &opts, span_of(0, 1));
+    match &res {
+        Ok(CalculationArg::Number(n)) => {
+            assert!(n.unit == want_unit, "C16/K/operate_internal: unit of the folded number");
+            assert!((n.num.0 - want).abs() <= 1e-12 * want.abs(), "C16/K/operate_internal: folded value is not what ordinary arithmetic gives");
+        }
+        _ => assert!(false, "C16/K/operate_internal: compatible numbers must fold to a number"),
+    }
+    std::mem::forget(res);
+}
+
+//@ ob: id=C16/K/operate_internal_sign_normalisation kind=K-bounded fns=SassCalculation::operate_internal bound="1% op (+-2px | +-0.5px), op in {+,-}"
+//@ desc: an unsimplifiable `a + b` / `a - b` keeps the left operand, and the emitted `op' n'` equals `op n` as a signed term with n' >= 0 (a - -2px is a + 2px, a + -2px is a - 2px, positive operands unchanged)
+#[kani::proof]
+#[kani::unwind(5)]
+#[kani::stub(crate::value::Number::convert, convert_contract)]
+#[kani::stub(crate::value::number::epsilon, epsilon_const)]
+#[kani::stub(crate::value::number::inverse_epsilon, inverse_epsilon_const)]
+#[kani::stub(crate::value::conversion_factor, conversion_factor_contract)]
+#[kani::stub(SassCalculation::verify_compatible_numbers, vcn_stub)]
+#[kani::stub(alloc::fmt::format, format_stub)]
+fn c16_operate_internal_sign_normalisation() {
+    check_unfolded(BinaryOp::Minus, 1.0, Unit::Percent, -2.0, Unit::Px);
+    check_unfolded(BinaryOp::Plus, 1.0, Unit::Percent, -2.0, Unit::Px);
+    check_unfolded(BinaryOp::Minus, 1.0, Unit::Percent, 2.0, Unit::Px);
+    check_unfolded(BinaryOp::Plus, 1.0, Unit::Percent, 0.5, Unit::Em);
+    check_unfolded(BinaryOp::Minus, 100.0, Unit::Percent, -0.5, Unit::Em);
+    kani::cover!(true);
+}
+
+//@ ob: id=C16/K/operate_internal_folds kind=K-bounded fns=SassCalculation::operate_internal,SassNumber::add,SassNumber::sub,SassNumber::mul,SassNumber::div bound="6 concrete operand pairs with convertible units"
+//@ desc: operands with known, mutually convertible units are replaced by the number ordinary arithmetic gives (1in - 48px = 0.5in, 1px + 2px = 3px, 2px * 3 = 6px, 6px / 2 = 3px, 96px / 1in = 1); a unitless operand folds with a length only inside min()/max()
+#[kani::proof]
+#[kani::unwind(5)]
+#[kani::stub(crate::value::Number::convert, convert_contract)]
+#[kani::stub(crate::value::number::epsilon, epsilon_const)]
+#[kani::stub(crate::value::number::inverse_epsilon, inverse_epsilon_const)]
+#[kani::stub(crate::value::conversion_factor, conversion_factor_contract)]
+#[kani::stub(SassCalculation::verify_compatible_numbers, vcn_stub)]
+#[kani::stub(alloc::fmt::format, format_stub)]
+fn c16_operate_internal_folds() {
+    check_folded(BinaryOp::Plus, false, 1.0, Unit::Px, 2.0, Unit::Px, 3.0, Unit::Px);
+    check_folded(BinaryOp::Minus, false, 1.0, Unit::In, 48.0, Unit::Px, 0.5, Unit::In);
+    check_folded(BinaryOp::Mul, false, 2.0, Unit::Px, 3.0, Unit::None, 6.0, Unit::Px);
+    check_folded(BinaryOp::Div, false, 6.0, Unit::Px, 2.0, Unit::None, 3.0, Unit::Px);
+    check_folded(BinaryOp::Plus, true, 1.0, Unit::None, 2.0, Unit::Px, 3.0, Unit::Px);
+    check_unfolded(BinaryOp::Plus, 1.0, Unit::None, 2.0, Unit::Px);
+    kani::cover!(true);
 }
 
 // ---------------------------------------------------------------------------
